@@ -102,6 +102,21 @@ macro_rules! fam_alias {
                     let ser = bincode::serialize(&ua).unwrap();
                     Out::v(&w(&bincode::deserialize::<$t>(&ser).unwrap()))
                 });
+                // the binary decoder is strict about the size: a payload that is one byte short, or the encoding of a
+                // narrower integer (U64), must be refused, not zero-extended
+                cs.group();
+                chk!(cs, "serde bincode (truncated payload rejected)", &Out::Val(vec![1]), {
+                    let ser = bincode::serialize(&ua).unwrap();
+                    Out::Val(vec![bincode::deserialize::<$t>(&ser[..ser.len() - 1]).is_err() as u64])
+                });
+                if $n > 1 {
+                    cs.group();
+                    chk!(cs, "serde bincode (narrower integer's payload rejected)", &Out::Val(vec![1]), {
+                        let ser = bincode::serialize(&U64::from_u64(0x0102_0304_0506_0708)).unwrap();
+                        Out::Val(vec![bincode::deserialize::<$t>(&ser).is_err() as u64])
+                    });
+                }
+                cs.group();
                 chk!(cs, "serde json roundtrip", &e, {
                     let ser = serde_json::to_string(&ua).unwrap();
                     Out::v(&w(&serde_json::from_str::<$t>(&ser).unwrap()))
